@@ -1,5 +1,6 @@
 import JadeModel.Proofs.Batch
 import JadeModel.Proofs.BatchBlocked
+import JadeModel.Model.Cluster
 
 /-!
 # C07 — every batch respects its group's size/time limit and holds only its group's jobs
@@ -112,6 +113,24 @@ theorem C07_blocked_not_submitted_partial (hnd : (cands.map (·.id)).Nodup) (htb
   intro c hc hmem
   obtain ⟨d, hd, hid⟩ := List.mem_map.1 hmem
   exact submitBatches_blocked_disjoint p depth dryRun out cands env hnd htb c hc d hd hid.symm
+
+/-- **Two cooperating sites.** Whatever arguments `HpcSubmitter.run` builds for `Cluster.update_job_status` from one
+    `_submit_batches` call — `submitted` = the batched jobs, `blocked` = the reported blocked jobs with whatever blocker
+    sets — satisfy the two hypotheses of the status update's acceptance theorem that concern the submit phase
+    (`UpdateArgsOK.subNodup` and the first clause of `UpdateArgsOK.blk`, `Proofs/ClusterStatus.lean`: under them and the
+    state hypotheses `update_job_status` raises nothing, C09's `update_preserves`).  Size-based batching. -/
+theorem C07_round_feeds_status_update_partial (hnd : (cands.map (·.id)).Nodup) (htb : p.timeBased = false)
+    (a : Jade.Cluster.UpdateArgs)
+    (hsub : a.submitted = (allJobs (submitBatches p depth dryRun out cands env).batches).map (·.id))
+    (hblk : a.blocked.map (·.1) = (submitBatches p depth dryRun out cands env).blocked.map (·.id)) :
+    a.submitted.Nodup ∧ ∀ b ∈ a.blocked, b.1 ∉ a.submitted := by
+  refine ⟨hsub ▸ C07_batches_disjoint p depth dryRun out cands env hnd, ?_⟩
+  intro b hb
+  have hmem : b.1 ∈ (submitBatches p depth dryRun out cands env).blocked.map (·.id) := by
+    rw [← hblk]; exact List.mem_map.2 ⟨b, hb, rfl⟩
+  obtain ⟨c, hc, hid⟩ := List.mem_map.1 hmem
+  rw [hsub, ← hid]
+  exact C07_blocked_not_submitted_partial p depth dryRun out cands env hnd htb c hc
 
 theorem C07_rollback_hands_blocked_job_on : type_of% @Jade.Batch.rollback_hands_blocked_job_on :=
   @Jade.Batch.rollback_hands_blocked_job_on
